@@ -121,12 +121,14 @@ class Boom(Exception):
 
 
 def exception_classes():
+    from rv.faults import Unprintable      # an exception that cannot even be turned into text
     import asyncio
     import concurrent.futures
     import socket
     return [Boom, TimeoutError, socket.timeout, asyncio.TimeoutError, concurrent.futures.TimeoutError, RuntimeError, ValueError, KeyError,
             LookupError, OSError, ConnectionError, ConnectionResetError, PermissionError, AssertionError, ZeroDivisionError, AttributeError,
-            TypeError, StopIteration, NotImplementedError, MemoryError, RecursionError, UnicodeDecodeError, ArithmeticError, EOFError, InterruptedError]
+            TypeError, StopIteration, NotImplementedError, MemoryError, RecursionError, UnicodeDecodeError, ArithmeticError, EOFError, InterruptedError,
+            Unprintable]
 
 
 class Stub:
